@@ -133,10 +133,10 @@ Qed.
 Lemma q_enable_loop env ms l : forall w active, allcalls (fun _ c => quiet c) (enable_loop env ms l w active).
 Proof.
   induction l as [|h r IH]; intros w active; cbn [enable_loop]; [exact I|].
-  destruct (assoc h (ae_state env)) as [ss|]; [|exact I].
   apply allcalls_bind.
-  - unfold enable_semi_sync_on_slave. apply allcalls_bind; [qac|]. intros [e|]; [exact I|].
+  - unfold enable_semi_sync_on_slave. destruct (assoc h (ae_state env)) as [ss|]; [|exact I].
     destruct (ns_master_gtid ms); [|exact I]. destruct (ns_slave ss); [|exact I].
+    apply allcalls_bind; [qac|]. intros [e|]; [exact I|].
     destruct (slave_ahead _ _); [apply q_restart_replica|apply q_restart_io].
   - intros [e|]; [apply IH|]. apply allcalls_bind; [unfold set_default_repl_settings; qac|]. intros _. apply IH.
 Qed.
@@ -276,9 +276,8 @@ Qed.
 Lemma a_enable_loop env ms l : forall w active, allcalls (fun _ c => an_call_ok c) (enable_loop env ms l w active).
 Proof.
   induction l as [|h r IH]; intros w active; cbn [enable_loop]; [exact I|].
-  destruct (assoc h (ae_state env)) as [ss|]; [|exact I].
   apply allcalls_bind.
-  - unfold enable_semi_sync_on_slave, restart_replica, restart_io. aac.
+  - unfold enable_semi_sync_on_slave, restart_replica, restart_io. destruct (assoc h (ae_state env)) as [ss|]; [|exact I]. aac.
   - intros [e|]; [apply IH|]. apply allcalls_bind; [unfold set_default_repl_settings; aac|]. intros _. apply IH.
 Qed.
 
